@@ -268,6 +268,12 @@ func genInbox(r *Rng, prop string, k int) *RunSpec {
 			actorIDs = idsOf(actors)
 		}
 		claimed := J{"type": "Follow", "id": fid, "actor": Pick(r, []string{st.Alice.ID, st.Alice.ID, st.Carol.ID, caseVariant(st.Alice.ID)}), "object": actorIDs}
+		if r.Intn(3) == 0 {
+			// an Accept that is in order: dave accepts the Follow alice really sent him
+			actors, actorIDs = []interface{}{st.Dave}, []string{st.Dave}
+			fid = st.Follow1
+			claimed = J{"type": "Follow", "id": fid, "actor": st.Alice.ID, "object": st.Dave}
+		}
 		var obj interface{} = claimed
 		if r.Intn(3) == 0 {
 			obj = fid // by IRI: served by a.example's own handler
@@ -1023,7 +1029,7 @@ func init() {
 	register(&PropDef{
 		ID: "C04", Level: "exploration", Engine: "fedsim",
 		Rule: "case = one activity of a handled type (Create Update Delete Follow Accept Reject Add Remove Like Announce Undo Block, plus Listen for the default callback) posted by a remote peer to a local inbox, with 1-3 objects/targets/actors as IRIs or embedded values, owned or foreign, ordered or unordered collections, pre-existing or absent likes/shares, OnFollow in {nothing, accept, reject}, per type no callback / wrapped / overriding 'other', fetch faults on objects given by IRI; one case in six is swept with every single seam-call fault, one in twelve with a cancellation of the request context at every seam call, one in twelve is a two-request history (same kind twice, swept with single faults) judged request by request against the database as it was when the request started; under a fault or cancellation a request that still answers 200 must show all its effects; oracle = executable model of the documented default effects applied to the database snapshot, compared document by document with the real final database, plus the automatic Accept/Reject on the wire and the callback log. distinct = distinct event sequences.",
-		QuickCases: 1500, QuickBudgetS: 60, ThoroughBudgetS: 600,
+		QuickCases: 4000, QuickBudgetS: 150, ThoroughBudgetS: 600,
 		Drive: func(c *DriveCtx, r *Rng, k int) {
 			if k%6 == 0 {
 				seed := r.s
@@ -1049,7 +1055,7 @@ func init() {
 	register(&PropDef{
 		ID: "C06", Level: "exploration", Engine: "fedsim",
 		Rule: "case = a Byzantine peer's Update/Delete (activity-id host vs 1-3 object hosts equal, different, differing in port, sub-domain or letter case; objects embedded or by IRI), Accept (stored Follow present / absent / another type / another actor / lacking the accepting actor; Follow embedded or by IRI), Undo (actor sets equal / subset / superset / disjoint; undone activity unreachable) with 1-3 actors as IRI or embedded object, each possibly blocked; oracle = authority model (applied => authorised): an unauthorised request must not be answered 200 and must leave the database unchanged apart from the inbox entry; Blocked must be asked, before any side effect, about exactly the actors' ids.",
-		QuickCases: 2500, QuickBudgetS: 60, ThoroughBudgetS: 600,
+		QuickCases: 6000, QuickBudgetS: 150, ThoroughBudgetS: 600,
 		Drive:  func(c *DriveCtx, r *Rng, k int) { c.Exec(genInbox(r, "C06", k)) },
 		Oracle: oracleInbox,
 		Assumptions: []string{"hosts differing only in letter case: rejecting and applying are both accepted; port and sub-domain differences must be rejected"},
